@@ -96,7 +96,7 @@ pub fn def() -> CheckDef {
         ],
         real_components: "one real Foca instance per run (all of src/), codecs: hand-written strict (clean/dirty), bincode, postcard",
         stub_components: "peers, network, clock, API caller are the simulator's generator",
-        batches: vec![Batch { scenario: h06(), quick: 150_000, thorough: 6_000_000 }, Batch { scenario: crate::checks::histchecks::chaos_for("C06"), quick: 3_000, thorough: 150_000 }, Batch { scenario: &HugeCluster, quick: 0, thorough: 0 }, Batch { scenario: crate::checks::histchecks::exhaustive_for("C06"), quick: 0, thorough: 0 }],
+        batches: vec![Batch { scenario: h06(), quick: 150_000, thorough: 6_000_000 }, Batch { scenario: crate::checks::histchecks::chaos_for("C06"), quick: 6_000, thorough: 150_000 }, Batch { scenario: &HugeCluster, quick: 0, thorough: 0 }, Batch { scenario: crate::checks::histchecks::exhaustive_for("C06"), quick: 0, thorough: 0 }],
         extra: Some(extra),
     }
 }
